@@ -64,6 +64,13 @@ class Codec:
     def run(self, cases, shards=None, timeout=1800):
         impl = core.run_sharded([self.harness, "codec"], self.prelude, cases, shards=shards, timeout=timeout)
         model = core.run_sharded([self.runner], self.prelude, cases, shards=shards, timeout=timeout, unlimited_stack=True)
+        for k, (a, b) in enumerate(zip(impl, model)):
+            if a.startswith("BADCASE unknown dict") and not b.startswith(("BADCASE", "PARSEERROR")):
+                # the model's runner has the dictionary this case names, the implementation's has not: the library did not load the
+                # document(s) it was made from (the loader panicked on a document an independent reader parses)
+                self.chk.violation("a dictionary could not be created by the library from documents an independent XML reader parses (the loader panicked or gave up): "
+                                   "every case that uses it is lost", dict(case=cases[k][:3000], impl=a[:300], model=b[:300]))
+                impl[k] = "ERR"
         for l in impl + model:
             if l.startswith("BADCASE") or l.startswith("PARSEERROR"):
                 raise MachineryError("malformed case reached a runner: " + l[:300])
